@@ -118,12 +118,13 @@ impl LanguageServer for Server {
     ) -> BoxFuture<'static, Result<Option<GotoDefinitionResponse>, Self::Error>> {
         tracing::info!("goto_definition: {params:?}");
         let task = self.spawn_with_snapshot(params, move |snap, params| {
-            let (pos, line_index) =
-                from_proto::file_pos(&snap, params.text_document_position_params);
+            let (pos, _) = from_proto::file_pos(&snap, params.text_document_position_params);
             let Some(location) = snap.analysis.goto_definition(pos) else {
                 return Ok(None);
             };
 
+            // the target may lie in another file: use that file's line table
+            let line_index = snap.analysis.line_index(location.file);
             #[cfg(feature = "verif")]
             crate::verif_hooks::point("task:before_vfs_read");
             let vfs = snap.vfs.read().unwrap();
@@ -139,7 +140,7 @@ impl LanguageServer for Server {
     ) -> BoxFuture<'static, Result<Option<Vec<Location>>, Self::Error>> {
         tracing::info!("references: {params:?}");
         let task = self.spawn_with_snapshot(params, move |snap, params| {
-            let (pos, line_index) = from_proto::file_pos(&snap, params.text_document_position);
+            let (pos, _) = from_proto::file_pos(&snap, params.text_document_position);
             let Some(location_list) = snap.analysis.references(pos) else {
                 return Ok(None);
             };
@@ -148,7 +149,8 @@ impl LanguageServer for Server {
             let vfs = snap.vfs.read().unwrap();
             let lsp_location_list = location_list
                 .into_iter()
-                .map(|it| to_proto::location(&vfs, &line_index, it))
+                // each reference is expressed in the coordinates of the file it lies in
+                .map(|it| to_proto::location(&vfs, &snap.analysis.line_index(it.file), it))
                 .collect();
             Ok(Some(lsp_location_list))
         });
